@@ -3,6 +3,7 @@
 package main
 
 import (
+	"bytes"
 	"context"
 	"fmt"
 	"io"
@@ -84,6 +85,17 @@ func parseSt(toks []string) stCase {
 	c.ch, i = parseSizes("ch", toks, i)
 	c.rd, _ = parseSizes("rd", toks, i)
 	return c
+}
+
+// refStream: payloads of all w events and of all injected data frames with our id string, in order.
+func refStream(c stCase) []byte {
+	var x []byte
+	for _, e := range c.evs {
+		if e.kind == "w" || (e.kind == "f" && bytes.Equal(e.tid, c.me) && e.ty == 1) {
+			x = append(x, genBytes(e.n, e.seed)...)
+		}
+	}
+	return x
 }
 
 // ---- loopback TCP pairs
@@ -251,6 +263,10 @@ func execSt(toks []string) string {
 				rT.SetReadDeadline(time.Now().Add(errTailWait))
 			}()
 		}
+		// read results are written relative to the case's reference stream (Driver/C10.lean refStream):
+		// "x:<n>" = the next n bytes of the reference at the cursor, anything else literally
+		ref := refStream(c)
+		cur := 0
 		var rres []string
 		for _, p := range c.rd {
 			buf := make([]byte, p)
@@ -263,7 +279,12 @@ func execSt(toks []string) string {
 			}
 			n, err := R.Read(buf)
 			if err == nil {
-				rres = append(rres, "d:"+vc.Hex(buf[:n]))
+				if n > 0 && cur+n <= len(ref) && bytes.Equal(ref[cur:cur+n], buf[:n]) {
+					rres = append(rres, "x:"+strconv.Itoa(n))
+				} else {
+					rres = append(rres, "d:"+vc.Hex(buf[:n]))
+				}
+				cur += n
 				continue
 			}
 			if n != 0 {
@@ -488,6 +509,54 @@ func genSt(r *vc.Rand, thorough bool) []caseLine {
 				out = append(out, stLine(c, "segmentation", ""))
 			}
 		}
+	}
+	// (2b) dense payload-size sweeps through every conn-writing entry point:
+	//      FrameStream.Write (one frame per size), WriteFrame called directly on the connection with our
+	//      id (delivered) and with foreign ids / other types (must be skipped without desynchronising),
+	//      and multi-frame Writes whose LAST chunk takes each small size
+	sw := sweepSizes(thorough, true)
+	for i, bi := 0, 0; i < len(sw); bi++ {
+		bsz := 32
+		if sw[i] > 4096 { // large payloads: small batches keep the model's wire short
+			bsz = 4
+		}
+		batch := sw[i:min(i+bsz, len(sw))]
+		i += len(batch)
+		me := meIDs[bi%len(meIDs)]
+		cw := stCase{me: me}
+		ci := stCase{me: me}
+		cf := stCase{me: me}
+		for _, n := range batch {
+			cw.evs = append(cw.evs, stEvent{kind: "w", n: n, seed: r.Intn(256)})
+			if n <= maxFrame {
+				ci.evs = append(ci.evs, stEvent{kind: "f", tid: me, ty: 1, n: n, seed: r.Intn(256)})
+				ty := 1
+				tid := foreignFor(r, me)
+				if r.Intn(3) == 0 {
+					ty, tid = vc.Pick(r, unknownTypes), me
+				}
+				cf.evs = append(cf.evs, stEvent{kind: "f", tid: tid, ty: ty, n: n, seed: r.Intn(256)},
+					stEvent{kind: "w", n: 3, seed: r.Intn(256)})
+			}
+		}
+		for k, c := range []*stCase{&cw, &ci, &cf} {
+			if len(c.evs) == 0 {
+				continue
+			}
+			c.evs = append(c.evs, stEvent{kind: []string{"cw", "cl"}[(bi+k)%2]})
+			mkReads(r, c, []int{maxFrame}, 3)
+			out = append(out, stLine(*c, []string{"sweep-write", "sweep-writeframe-own", "sweep-writeframe-foreign"}[k], ""))
+		}
+	}
+	for i, n := range lastChunkSizes(thorough) {
+		k := 1
+		if i%16 == 0 {
+			k = 2
+		}
+		c := stCase{me: meIDs[i%len(meIDs)]}
+		c.evs = []stEvent{{kind: "w", n: k*maxFrame + n, seed: r.Intn(256)}, {kind: "w", n: 2, seed: 5}, {kind: []string{"cw", "cl"}[i%2]}}
+		mkReads(r, &c, []int{maxFrame}, 3)
+		out = append(out, stLine(c, "sweep-last-chunk", ""))
 	}
 	// (3) random scripts
 	rounds := 450
